@@ -46,7 +46,7 @@ NTLC = 4
 LINES_PER_FUNC = 40
 LINES_PER_FILE = 400
 SHARD = 8000
-MAX_CLANG = 80
+MAX_CLANG = 250
 MAX_SHRINK = 300
 # deep recursion of the spec's parser/printer needs stack; few GC threads: several TLC processes run side by side
 JAVA_ENV = {"JAVA_TOOL_OPTIONS": "-Xss64m -XX:ParallelGCThreads=2"}
@@ -79,13 +79,11 @@ def plan(tier):
     if tier == "quick":
         return [small + [{"kind": "big", "pf": "rep", "n": 150}],
                 [exact("rep1", 2, ["asg"])]]
-    ctx2 = ["asg", "if"]
     parts = [small,
-             [exact("rep", 2, ctx2, bins(REP_BIN[:4]))], [exact("rep", 2, ctx2, bins(REP_BIN[4:8]))], [exact("rep", 2, ctx2, bins(REP_BIN[8:]))],
-             [exact("rep", 2, ctx2, ["cond", "pcond"] + OTHER_FAMS)],
+             [exact("rep", 2, ["asg"], bins(REP_BIN[:6]))], [exact("rep", 2, ["asg"], bins(REP_BIN[6:]) + ["cond", "pcond"] + OTHER_FAMS)],
              [exact("rep0", 3, ["asg"], bins(REP1_BIN[:5]))], [exact("rep0", 3, ["asg"], bins(REP1_BIN[5:]))],
              [exact("rep0", 3, ["asg"], ["cond", "pcond"] + OTHER_FAMS)],
-             [{"kind": "big", "pf": "rep", "n": 1500}]]
+             [{"kind": "big", "pf": "rep", "n": 1000}]]
     return parts
 
 
@@ -322,7 +320,7 @@ def run_part(lang, part, seed, work, planpath):
     return res
 
 
-def judge_cases(lang, cases_path, ncases, seed, work, tag):
+def judge_cases(lang, cases_path, ncases, seed, work, tag, extra_env=None):
     """observe + judge the cases of one ndjson file; returns (observations, mismatch rows of TLC)."""
     cases = vlib.read_ndjson(cases_path)
     light = [{"id": c["id"], "toks": c["toks"]} for c in cases]
@@ -334,7 +332,7 @@ def judge_cases(lang, cases_path, ncases, seed, work, tag):
     opath = os.path.join(work, "obs.%s.%s.ndjson" % (lang, tag))
     bpath = os.path.join(work, "bad.%s.%s.ndjson" % (lang, tag))
     vlib.write_ndjson(opath, obs)
-    jr = tlc("judge", lang, {"CASES": cases_path, "OBS": opath, "OUT": bpath}, seed, 3000)
+    jr = tlc("judge", lang, dict(extra_env or {}, CASES=cases_path, OBS=opath, OUT=bpath), seed, 3000)
     mm = re.search(r'"JUDGED",\s*(\d+),\s*"OK",\s*(\d+),\s*"BAD",\s*(\d+)', jr.out)
     if not mm or int(mm.group(1)) != len(cases):
         raise vlib.InfraError("ExprGrammar judge gave no verdict\n" + jr.out[-2000:])
@@ -342,6 +340,30 @@ def judge_cases(lang, cases_path, ncases, seed, work, tag):
     if len(bad) != int(mm.group(3)):
         raise vlib.InfraError("ExprGrammar judge verdict/output mismatch")
     return cases, obs, bad, int(mm.group(2))
+
+
+CLASSES = [("sizeof", "class:sizeof-operand-without-parentheses"), ("notcast", "class:cast-parentheses-removed-after-not")]
+
+
+def classify(lang, reduced, seed, work):
+    """Root-cause class of every disputed (reduced) statement: TLC prints it in the repaired variant (ExprGrammar.tla, Repair) and judges
+    what cppcheck makes of that; the statement is in the class iff the repaired print is judged correct. Returns {id: class key}."""
+    cls = {}
+    if not reduced:
+        return cls
+    cpath = os.path.join(work, "cls.%s.ndjson" % lang)
+    vlib.write_ndjson(cpath, [{"id": b["id"], "toks": b["toks"], "t": b["t"]} for b in reduced])
+    for style, key in CLASSES:
+        rpath = os.path.join(work, "rep.%s.%s.ndjson" % (lang, style))
+        r = tlc("repair", lang, {"CASES": cpath, "OUT": rpath, "REPAIR": style}, seed, 1200)
+        if '"REPAIRED", 0' in r.out.replace("<<", "").replace(">>", ""):
+            continue
+        cases, obs, bad, _ok = judge_cases(lang, rpath, None, seed, work, "rep" + style, extra_env={"REPAIR": style})
+        wrong = {b["id"] for b in bad}
+        for c, o in zip(cases, obs):
+            if o["status"] == "ok" and c["id"] not in wrong and c["id"] not in cls:
+                cls[c["id"]] = key
+    return cls
 
 
 def canon(toks):
@@ -447,17 +469,22 @@ def main(tier, seed, replay=None):
     disagreements = []
     not_examined = 0
     reduced_all = {}
+    by_class = {}
+
     def second_opinion(lang):
         reduced = shrink(lang, res[lang]["bad"][:MAX_SHRINK], seed, work)
-        return reduced, clang_confirm(lang, reduced, seed, work)
+        return reduced, clang_confirm(lang, reduced, seed, work), classify(lang, reduced, seed, work)
     with concurrent.futures.ThreadPoolExecutor(2) as ex:
         opinions = dict(zip(("c", "cpp"), ex.map(second_opinion, ("c", "cpp"))))
     for lang in ("c", "cpp"):
         bad = res[lang]["bad"]
         not_examined += max(0, len(bad) - MAX_SHRINK)
-        reduced, agrees = opinions[lang]
+        reduced, agrees, cls = opinions[lang]
         reduced_all[lang] = reduced
         for b in reduced:
+            b["class"] = cls.get(b["id"])
+            if b["class"]:
+                by_class[b["class"]] = by_class.get(b["class"], 0) + b["instances"]
             stmt = " ".join(b["toks"])
             if b["id"] not in agrees:
                 not_examined += b["instances"]
@@ -468,7 +495,7 @@ def main(tier, seed, replay=None):
             payload = {"lang": lang, "toks": b["toks"], "t": b["t"], "expected": b["expected"], "observed": b["observed"],
                        "reduced_from": b["from_stmt"], "instances_in_this_run": b["instances"]}
             p = vlib.save_replay(PID, "%s-%s" % (lang, vlib.digest(canon(b["toks"]))), payload)
-            violations.append({"key": "%s:%s" % (lang, canon(b["toks"]).replace(" ", "_")),
+            violations.append({"key": b["class"] or "%s:%s" % (lang, canon(b["toks"]).replace(" ", "_")),
                                "what": "[%s] %s : expected edges %s, cppcheck has %s (clang agrees with the spec; %d statements of this run reduce to it, e.g. %s)"
                                        % (lang, stmt, json.dumps(b["expected"]), json.dumps(b["observed"]), b["instances"], b["from_stmt"]), "replay": p})
     # statements that are not judged (rejected as syntax error / rewritten by the tokenizer before the AST exists) must stay rare:
@@ -498,7 +525,7 @@ def main(tier, seed, replay=None):
                              "distinct_reduced_mismatches": len(reduced_all[l]),
                              "by_operator_count": res[l]["by_n"], "rejected_samples": res[l]["rejected_samples"]} for l in res},
         "laws_checked_on_trees": nlaws, "model_disagreement": len(disagreements), "model_disagreement_samples": disagreements[:10],
-        "mismatches_not_examined": not_examined, "known_findings": known,
+        "mismatches_not_examined": not_examined, "known_findings": known, "disputed_statements_by_root_cause_class": by_class,
     }
     vlib.write_evidence(PID, tier, seed, "exploration", cov, time.time() - t0, violations=new,
                         assumptions=["dump columns are exact source columns (tokens are matched by line and column)",
